@@ -75,3 +75,14 @@ Definition vcase_ok (c : vcase) : bool :=
   result_same (list_eqb verror_same) (validateR m s [] v) obs
   && (* on well-formed schemas the total function agrees too *)
      (negb (wf s) || result_same (list_eqb verror_same) (Ok (validate m s [] v)) obs).
+
+(* C02 compares verdicts only: the implementation must return "no errors" exactly when the
+   model does (an implementation that raises has not accepted). *)
+Definition verdict_case_ok (c : vcase) : bool :=
+  let '(m, s, v, obs) := c in
+  match validateR m s [] v, obs with
+  | Ok [], Ok [] => true
+  | Ok [], _ => false
+  | Ok (_ :: _), Ok [] => false
+  | _, _ => true
+  end.
